@@ -20,9 +20,20 @@ import (
 type c03Params struct {
 	Strategy                  string
 	Breaker, Limiter, Passive bool
+	Active                    bool // active health checks: probe rounds with faulted probes are events too
 }
 
-var c03Events = []string{"req-ok", "req-500", "req-refused", "req-abort", "clock+1.1s", "clock+11s"}
+var c03Events = []string{"req-ok", "req-500", "req-refused", "req-abort", "clock+1.1s", "clock+11s", "req-garbage", "req-eof", "req-timeout"}
+
+// with active checks: one probe round in which every backend answers the probe that way
+var c03ProbeEvents = []string{"probes-ok", "probes-500", "probes-refuse", "probes-garbage", "probes-eof", "probes-timeout"}
+
+func c03EventsOf(p c03Params) []string {
+	if p.Active {
+		return append(append([]string(nil), c03Events...), c03ProbeEvents...)
+	}
+	return c03Events
+}
 
 type c03Inst struct {
 	s   *vrt.Sched
@@ -42,7 +53,22 @@ func (in *c03Inst) Step(ev int) *vh.HViol {
 		in.s.AdvanceQuiet(11 * time.Second)
 		return nil
 	}
-	mode := []string{"ok", "500", "refuse", "abort"}[ev]
+	if ev >= len(c03Events) {
+		mode := c03ProbeEvents[ev-len(c03Events)][len("probes-"):]
+		for _, st := range in.k.stubs {
+			st.probeMode = mode
+		}
+		if tk := in.s.TickerByPeriod(5 * time.Second); tk != nil {
+			tk.Fire()
+		}
+		in.s.Settle()
+		for _, st := range in.k.stubs {
+			st.probeMode = "ok"
+		}
+		in.out = "probed"
+		return nil
+	}
+	mode := []string{"ok", "500", "refuse", "abort", "", "", "garbage", "eof", "timeout"}[ev]
 	res := in.k.requestMode("10.0.0.1", mode)
 	in.out = fmt.Sprintf("%d/%v", res.Status, res.Aborted)
 	if res.Status == 0 && !res.Aborted {
@@ -55,7 +81,14 @@ func (in *c03Inst) Fingerprint() string { return in.k.ControlState() }
 
 func (in *c03Inst) Probe() *vh.HViol {
 	in.s.AdvanceQuiet(11 * time.Second)
-	cfg := fmt.Sprintf("%s breaker=%v limiter=%v passive=%v", in.p.Strategy, in.p.Breaker, in.p.Limiter, in.p.Passive)
+	cfg := fmt.Sprintf("%s breaker=%v limiter=%v passive=%v active=%v", in.p.Strategy, in.p.Breaker, in.p.Limiter, in.p.Passive, in.p.Active)
+	if in.p.Active {
+		// a healthy probe round, as the running loop would deliver
+		if tk := in.s.TickerByPeriod(5 * time.Second); tk != nil {
+			tk.Fire()
+		}
+		in.s.Settle()
+	}
 	var seq []int
 	for i := 0; i < 5; i++ {
 		seq = append(seq, in.k.requestMode(fmt.Sprintf("10.8.0.%d", i), "ok").Status)
@@ -72,9 +105,13 @@ func (in *c03Inst) Probe() *vh.HViol {
 }
 
 func c03Spec(p c03Params, depth int) vh.HSpec {
-	return vh.HSpec{Name: fmt.Sprintf("faults-%s-breaker%v-limiter%v-passive%v", p.Strategy, p.Breaker, p.Limiter, p.Passive), KeyPrefix: "C03/seq", Events: c03Events, Depth: depth, Params: p,
+	name := fmt.Sprintf("faults-%s-breaker%v-limiter%v-passive%v", p.Strategy, p.Breaker, p.Limiter, p.Passive)
+	if p.Active {
+		name += "-active"
+	}
+	return vh.HSpec{Name: name, KeyPrefix: "C03/seq", Events: c03EventsOf(p), Depth: depth, Params: p,
 		New: func(s *vrt.Sched) vh.HInstance {
-			o := kitOpts{Strategy: p.Strategy, N: 2, Window: 10}
+			o := kitOpts{Strategy: p.Strategy, N: 2, Window: 10, Active: p.Active}
 			if p.Passive {
 				o.PassiveThr = 2
 			}
@@ -84,7 +121,11 @@ func c03Spec(p c03Params, depth int) vh.HSpec {
 			if p.Limiter {
 				o.Limiter = &config.RateLimitConfig{Enabled: true, MaxTokens: 3, RefillRate: 1}
 			}
-			return &c03Inst{s: s, k: newKit(s, o), p: p}
+			in := &c03Inst{s: s, k: newKit(s, o), p: p}
+			if p.Active {
+				s.Settle() // initial probe round of the health-check loop
+			}
+			return in
 		}}
 }
 
@@ -117,7 +158,17 @@ func TestVerifC03S(t *testing.T) {
 	for _, st := range strategies {
 		for m := 0; m < 8; m++ {
 			if vh.MyShard(i) {
-				vh.RunH(r, "TestVerifC03S", c03Spec(c03Params{st, m&1 != 0, m&2 != 0, m&4 != 0}, depth))
+				vh.RunH(r, "TestVerifC03S", c03Spec(c03Params{Strategy: st, Breaker: m&1 != 0, Limiter: m&2 != 0, Passive: m&4 != 0}, depth))
+			}
+			i++
+		}
+		// with the active health-check loop: probe rounds answered by every kind of fault
+		for _, m := range []int{0, 5, 7} {
+			if !vres.Thorough() && m == 5 {
+				continue
+			}
+			if vh.MyShard(i) {
+				vh.RunH(r, "TestVerifC03S", c03Spec(c03Params{Strategy: st, Breaker: m&1 != 0, Limiter: m&2 != 0, Passive: m&4 != 0, Active: true}, depth-2))
 			}
 			i++
 		}
